@@ -406,7 +406,8 @@ def gen_workload(tape):
         op = tape.pick(["save", "populate", "restart_clean", "restart_crash",
                         "load", "find", "corrupt", "save", "populate_some",
                         "corrupt", "set_coverage", "remove_file", "corrupt",
-                        "populate_fault", "restart_interrupted"], "op")
+                        "populate_fault", "restart_interrupted",
+                        "exit_after_drop"], "op")
         o = {"op": op}
         if op in ("corrupt", "save"):
             o["same_tick"] = tape.flag("same_tick", 1, 2)
@@ -839,6 +840,48 @@ class Exec:
             self.atexit.handlers = []
             self.fs = self._construct()
         elif kind == "restart_crash":
+            self.atexit.handlers = []
+            self.fs = self._construct()
+        elif kind == "exit_after_drop":
+            # the script held its FileSet in a local variable: the last
+            # reference is gone before the interpreter shuts down and runs the
+            # at-exit handlers - the cache is saved all the same
+            if os.path.isdir(self.cache):
+                _real_shutil.rmtree(self.cache)
+            snap = _snapshot(fs)
+            had_handlers = bool(self.atexit.handlers)
+            fs = None
+            self.fs = None
+            import gc as _gc
+            _gc.collect()
+            self.disk.begin_save()
+            try:
+                for func, args, kwargs in reversed(self.atexit.handlers):
+                    func(*args, **kwargs)
+            except Exception as e:  # noqa
+                self.V.append(_viol(f"C15/save/exception/{type(e).__name__}",
+                                    f"at-exit save: {e}"[:300]))
+            self.disk.end_save()
+            self.stamp()
+            self.probe("exit_after_the_object_was_dropped")
+            if had_handlers and snap:
+                self.nontrivial = True
+                entries = None
+                if os.path.isfile(self.cache):
+                    with open(self.cache, "rb") as f:
+                        entries = _parse_doc(f.read())
+                if entries is None or set(entries) != set(snap):
+                    self.V.append(_viol(
+                        "C15/atexit/not-saved-after-object-dropped",
+                        f"the FileSet went out of scope before interpreter exit: the "
+                        f"cache file holds {None if entries is None else len(entries)} "
+                        f"entries, the cache had {len(snap)}"))
+            self.saved_bytes = self.saved_snap = None
+            if os.path.isfile(self.cache):
+                with open(self.cache, "rb") as f:
+                    self.saved_bytes = f.read()
+                self.saved_snap = snap
+            self.cov_dirty = False
             self.atexit.handlers = []
             self.fs = self._construct()
         elif kind == "restart_interrupted":
